@@ -3,7 +3,7 @@ From Coq Require Import List Arith Bool Lia.
 Import ListNotations.
 Require Import MayV.Sync.ChanMpmcModel MayV.Sync.ChanMpmcInv.
 Require Import MayV.Sync.ChanMpmcTac.
-Lemma pres_nd s ac s' : Inv s -> step true true s ac = Some s' ->
+Lemma pres_nd c s ac s' : Inv s -> step true true c s ac = Some s' ->
   NoDup (hold s') /\ NoDup (wq s') /\ NoDup (rep s') /\ NoDup (pend s') /\ NoDup (livet s') /\ NoDup (liver s').
 Proof.
   intros Hi H. destruct (I_nd _ Hi) as (N1 & N2 & N3 & N4 & N5 & N6).
@@ -14,7 +14,7 @@ Proof.
   - pose proof (I_S _ Hi (sto (Sd s a))) as U. unfold sinv in U. rewrite Est in U. destruct U as (_ & _ & U3 & _). intro X. apply U3 in X. discriminate.
 Qed.
 
-Lemma pres_cnt s ac s' : Inv s -> step true true s ac = Some s' -> txp s' = length (livet s') /\ rxp s' = length (liver s').
+Lemma pres_cnt c s ac s' : Inv s -> step true true c s ac = Some s' -> txp s' = length (livet s') /\ rxp s' = length (liver s').
 Proof.
   intros Hi H. destruct (I_nd _ Hi) as (N1 & N2 & N3 & N4 & N5 & N6). destruct (I_cnt _ Hi) as [C1 C2].
   step_cases H; boolh; unf; prj; try (split; assumption).
@@ -23,7 +23,7 @@ Proof.
   all: lenrm; split; lia.
 Qed.
 
-Lemma pres_sem s ac s' : Inv s -> step true true s ac = Some s' -> sv s' <> 0 -> wq s' = [].
+Lemma pres_sem c s ac s' : Inv s -> step true true c s ac = Some s' -> sv s' <> 0 -> wq s' = [].
 Proof.
   intros Hi H. pose proof (I_sem _ Hi) as P.
   step_cases H; boolh; unf; prj; auto.
@@ -31,7 +31,7 @@ Proof.
   all: intro X; specialize (P X); try discriminate; try (rewrite P; reflexivity).
 Qed.
 
-Lemma pres_drop s ac s' : Inv s -> step true true s ac = Some s' ->
+Lemma pres_drop c s ac s' : Inv s -> step true true c s ac = Some s' ->
   forall a, dropper s' = Some a -> (sp (Sd s' a) = G0 \/ sp (Sd s' a) = G1) /\ txp s' = 0.
 Proof.
   intros Hi H a0. pose proof (I_drop _ Hi a0) as P.
@@ -55,7 +55,7 @@ Definition slinks (s : st) (a : nat) : Prop :=
 Lemma sinv_links s a : sinv s a -> slinks s a.
 Proof. unfold sinv, slinks. tauto. Qed.
 
-Lemma pres_slinks s ac s' : Inv s -> step true true s ac = Some s' -> forall a, slinks s' a.
+Lemma pres_slinks c s ac s' : Inv s -> step true true c s ac = Some s' -> forall a, slinks s' a.
 Proof.
   intros Hi H a0. pose proof (sinv_links _ _ (I_S _ Hi a0)) as P. unfold slinks in *.
   destruct (I_nd _ Hi) as (N1 & N2 & N3 & N4 & N5 & N6).
@@ -66,7 +66,7 @@ Proof.
   pose proof (I_drop _ Hi a0) as D. repeat split; try tauto. intro X. apply H3 in X. destruct (D X) as [_ T]. congruence.
 Qed.
 
-Lemma pres_sdead s ac s' : Inv s -> step true true s ac = Some s' -> forall a,
+Lemma pres_sdead c s ac s' : Inv s -> step true true c s ac = Some s' -> forall a,
   sdead (Sd s' a) = true -> rxp s' = 0 /\ (sp (Sd s' a) = M0 \/ (sp (Sd s' a) = SIdle /\ sres (Sd s' a) = false)).
 Proof.
   intros Hi H a0. pose proof (I_S _ Hi a0) as P. unfold sinv in P. boolh.
